@@ -28,7 +28,7 @@ fn seed() -> u64 {
 pub fn cfg_from(data: &[u8], prop: &str) -> (Cfg, How) {
     let mut s = Src::bytes(data);
     let h = s.u8();
-    let how = How { owned: h & 1 == 1, wrap: h & 2 == 2, probe: h & 16 == 16 };
+    let how = How { owned: h & 1 == 1, wrap: h & 2 == 2, probe: h & 16 == 16, reconf: h & 32 == 32 };
     let mix = if h & 4 == 4 { Mix::Limit } else { Mix::Valid };
     let cfg = match prop {
         "C02" => {
